@@ -27,7 +27,7 @@ RULE = ("exhaustive: all sequences of length 0..3 over 27 letters (10 domain ope
         "random strategy / n / rule pipeline and a shift/scale commutation pair. non-trivial: history contains >= 1 "
         "domain operation that changed the series; distinct by (base, letter sequence) or case index."
         " Round-4 classes: truncation bounds as ratio / absolute / mixed, flags positionally or by keyword, every operation in a drawn call form; the pipeline oracle includes the unmatched input the stretch started from.")
-REQUIRED_MONITORS = ["c08:step", "c08:reshape_keeps_reference", "c08:pipeline", "c08:commute"]
+REQUIRED_MONITORS = ["c08:default_grid", "c08:step", "c08:reshape_keeps_reference", "c08:pipeline", "c08:commute"]
 ASSUMPTIONS = ["operations are applied with admissible arguments only (inadmissible letters end an enumerated history)",
                "histories longer than 8 and arbitrary argument reals are sampled"]
 NSHARDS = 16
@@ -65,6 +65,8 @@ def plan(tier, seed):
         specs += [{"kind": "exhaustive", "base": 3, "part": p, "parts": 32} for p in range(4)]
     n = 6000 if tier == "quick" else 400000
     specs += [{"kind": "random", "start": p * (n // NSHARDS), "count": n // NSHARDS} for p in range(NSHARDS)]
+    k = 60 if tier == "quick" else 4000
+    specs += [{"kind": "default_grid", "start": p * (k // 2), "count": k // 2} for p in range(2)]
     return specs
 
 
@@ -311,6 +313,42 @@ def judge_pipeline(ctx, cid, wv, ref_x, ref_y, strat, n, rule, hist, ys0=None):
     return True
 
 
+def run_default_grid_case(ctx, kind_, idx):
+    """Weaver(None, y): the documented default abscissae 0 .. len(y)-1, on a series of a few thousand samples, rescaled
+    and shifted with plain Python ints (sample index -> microseconds, -> epoch seconds): whatever type the library
+    builds the default grid in must hold the results"""
+    from traffic_weaver import Weaver
+    rng = ctx.rng(kind_, idx)
+    cid = ctx.case_id(kind_, idx)
+    m = int(rng.integers(2200, 6001))
+    y = rng.normal(0, 1, m) + 5.0
+    ctx.judged()
+    hist = []
+    try:
+        wv = Weaver(None, y.copy())
+        sh = Shadow(np.arange(m), y)
+        for _ in range(int(rng.integers(1, 4))):
+            op = ["scale_x", "shift_x", "scale_x", "shift_y", "scale_y"][int(rng.integers(0, 5))]
+            if op == "scale_x":
+                args = (int(rng.choice([60, 1000, 10 ** 6, 3600 * 1000])),)
+            elif op == "shift_x":
+                args = (int(rng.choice([3600, -86400, 1_700_000_000, 2 ** 31 - m // 2])),)
+            else:
+                args = (int(rng.choice([2, -3, 1000])),)
+            if float(np.max(np.abs(sh.x))) * abs(args[0]) > 2.0 ** 52:
+                continue
+            hist.append([op, list(args)])
+            call(wv, op, args, rng)
+            sh.step(op, args)
+            ctx.monitor("c08:default_grid")
+            if not check_state(ctx, cid, wv, sh, op, args, hist):
+                return
+        if hist:
+            ctx.nontriv("default_grid", idx)
+    except Exception as e:
+        ctx.exception("operation_raised_on_admissible_history", cid, e, {"history": hist, "constructed": "Weaver(None, y)"})
+
+
 def run_random_case(ctx, kind_, idx):
     from traffic_weaver import Weaver
     rng = ctx.rng(kind_, idx)
@@ -442,7 +480,7 @@ def run(ctx, spec):
         run_exhaustive(ctx, spec)
     else:
         for idx in range(spec["start"], spec["start"] + spec["count"]):
-            run_random_case(ctx, spec["kind"], idx)
+            (run_default_grid_case if spec["kind"] == "default_grid" else run_random_case)(ctx, spec["kind"], idx)
 
 
 def replay(ctx, case):
@@ -450,4 +488,4 @@ def replay(ctx, case):
         run_history(ctx, case, BASES[case["base"]], [ALPHABET[i] for i in case["letters"]])
         ctx.judged()
     else:
-        run_random_case(ctx, case["kind"], case["idx"])
+        (run_default_grid_case if case["kind"] == "default_grid" else run_random_case)(ctx, case["kind"], case["idx"])
